@@ -249,6 +249,11 @@ var zzEvVals []string
 func zzExtraEventPack(p Pack) {
 	zzHookBegin(0)
 	pp := p.(*EventPack)
+	// Status / Otype travel as decimal TEXT (Sprintf("%d") / Atoi): the digit model forks on
+	// sign and digit count and the round trip is a chain of divisions; magnitudes above
+	// 999 are outside the bound (probe: full int32 range undecided at the 4 min budget, 5 digits leave one re-encoding query unknown)
+	zzvf.Assume(zzvf.And(pp.Status >= -999, pp.Status <= 999))
+	zzvf.Assume(zzvf.And(pp.Otype >= -999, pp.Otype <= 999))
 	zzEvKeys, zzEvVals = nil, nil
 	n := zzSize(2)
 	for i := 0; i < n; i++ {
@@ -353,7 +358,8 @@ func zzExtraSMNetPerfPack(p Pack) {
 // SMLogEvent: a nil FilePath / LogContent / WinLogFile / WinSourceName is written as the
 // empty text and comes back as a pointer to "": the wire cannot tell them apart, so the
 // original is normalised the same way before the field-by-field comparison. (Keyword and
-// LogRule are dereferenced unconditionally by the writer: nil there is a finding.)
+// LogRule were dereferenced unconditionally by the writer — fixed in /repo; since then they
+// follow the same nil-as-empty convention.)
 func zzOptSMLogEventPack() *zzOpts {
 	return &zzOpts{compare: func(b []byte, p, q Pack, name string) {
 		pe := p.(*SMLogEventPack)
@@ -378,6 +384,12 @@ func zzOptSMLogEventPack() *zzOpts {
 			}
 			if e.WinSourceName == nil {
 				e.WinSourceName = &empty
+			}
+			if e.Keyword == nil {
+				e.Keyword = &empty
+			}
+			if e.LogRule == nil {
+				e.LogRule = &empty
 			}
 			pa.LogEvent[i] = e
 		}
